@@ -205,25 +205,26 @@ type e3Step struct {
 }
 
 type e3State struct {
-	shape         e3Shape
-	dir           string
-	bin           string
-	files         map[string]string // matched-or-not project files created by the harness: rel -> content
-	serial        int
-	prevSet       bool
-	prevF         string
-	prevOut       string   // success | skipped | failed | declined | killed | cancelled
-	since         []string // read-only / other-task operations since the last plain invocation of the task
-	changes       []string // file operations since the last plain invocation
-	statusOK      bool
-	steps         []e3Step
-	goodSet       bool
-	goodF         string            // fingerprint at the most recent successful (or legitimately skipped) plain invocation
-	lastByF       map[string]string // fingerprint -> outcome of the most recent attempt observed for it
-	lastEdit      [3]string         // file, content before, content after the last edit
-	ownState      map[string]bool   // state files under .task written by plain runs of the task under test
-	reportedSkipF string
-	prevView      map[string]string // matched files at the last plain invocation: rel -> content "@" mtime
+	othersWroteGen bool // labelvar + generates: the other instance rewrote the shared outputs since this one last ran
+	shape          e3Shape
+	dir            string
+	bin            string
+	files          map[string]string // matched-or-not project files created by the harness: rel -> content
+	serial         int
+	prevSet        bool
+	prevF          string
+	prevOut        string   // success | skipped | failed | declined | killed | cancelled
+	since          []string // read-only / other-task operations since the last plain invocation of the task
+	changes        []string // file operations since the last plain invocation
+	statusOK       bool
+	steps          []e3Step
+	goodSet        bool
+	goodF          string            // fingerprint at the most recent successful (or legitimately skipped) plain invocation
+	lastByF        map[string]string // fingerprint -> outcome of the most recent attempt observed for it
+	lastEdit       [3]string         // file, content before, content after the last edit
+	ownState       map[string]bool   // state files under .task written by plain runs of the task under test
+	reportedSkipF  string
+	prevView       map[string]string // matched files at the last plain invocation: rel -> content "@" mtime
 }
 
 func (st *e3State) view() map[string]string {
@@ -649,8 +650,14 @@ func (st *e3State) step(op e3Op, rng *rand.Rand, part *h.Partial) []e3Verdict {
 		if sh.OtherVar != "" {
 			otherArgs = append(otherArgs, sh.OtherVar)
 		}
-		r, _ := st.invoke(e3Inv{args: otherArgs})
+		r, otr := st.invoke(e3Inv{args: otherArgs})
 		after := h.Snap(st.dir, true)
+		if sh.Shape == "labelvar" && sh.Gen && tutProbes(otr) > 0 {
+			// the other instance of the task has just rewritten the outputs both instances declare: with method
+			// timestamp they are now newer than this instance's sources, which by the documented rule (sources against
+			// generates) means up to date — outputs shared by two instances are outside what the statement describes
+			st.othersWroteGen = true
+		}
 		rec.Exit = r.Exit
 		part.Count("other_task_invocations", 1)
 		// another task legitimately records its own state; it is a possible cause only if it
@@ -861,6 +868,8 @@ func (st *e3State) step(op e3Op, rng *rand.Rand, part *h.Partial) []e3Verdict {
 			if observed == "skipped" {
 				observed = "killed-complete"
 			}
+		case observed == "skipped" && !maySkip && sh.Method == "timestamp" && st.othersWroteGen && !inv.force:
+			part.Count("unjudged_outputs_rewritten_by_the_other_instance", 1)
 		case observed == "skipped" && !maySkip && st.reportedSkipF == fNow && !inv.force:
 			// the same illegitimate skip as already reported in this history (nothing changed since)
 			part.Count("repeated_illegitimate_skips_not_re-reported", 1)
@@ -942,6 +951,9 @@ func (st *e3State) step(op e3Op, rng *rand.Rand, part *h.Partial) []e3Verdict {
 			if !st.prevSet {
 				observed = "never-run"
 			}
+		}
+		if observed == "success" {
+			st.othersWroteGen = false
 		}
 		st.prevSet, st.prevF, st.prevOut = true, st.fingerprint(), observed
 		if during != nil {
